@@ -107,7 +107,9 @@ type Path struct {
 	Blocks []*ssa.BasicBlock
 	// BlockEv[i] is the number of events emitted before Blocks[i] was entered.
 	BlockEv []int
-	End     Kind // KReturn, KPanic or KLoopBack
+	// AllBlocks lists every block entered, those of callees expanded in place included.
+	AllBlocks []*ssa.BasicBlock
+	End       Kind // KReturn, KPanic or KLoopBack
 }
 
 // Config tunes enumeration.
@@ -162,29 +164,31 @@ type frame struct {
 }
 
 type state struct {
-	phi     map[*ssa.Phi]ssa.Value
-	mem     map[ssa.Value]ssa.Value
-	bind    map[ssa.Value]ssa.Value // parameters and free variables of inlined frames
-	facts   map[ssa.Value]*fact
-	loads   map[string]ssa.Value // canonical load per field address (value numbering)
-	lens    map[string]ssa.Value // canonical len(x) per slice/string value
-	events  []Event
-	blocks  []*ssa.BasicBlock
-	blockEv []int
-	fr      *frame
+	phi       map[*ssa.Phi]ssa.Value
+	mem       map[ssa.Value]ssa.Value
+	bind      map[ssa.Value]ssa.Value // parameters and free variables of inlined frames
+	facts     map[ssa.Value]*fact
+	loads     map[string]ssa.Value // canonical load per field address (value numbering)
+	lens      map[string]ssa.Value // canonical len(x) per slice/string value
+	events    []Event
+	blocks    []*ssa.BasicBlock
+	allBlocks []*ssa.BasicBlock
+	blockEv   []int
+	fr        *frame
 }
 
 func (st *state) clone() *state {
 	n := &state{
-		phi:     make(map[*ssa.Phi]ssa.Value, len(st.phi)),
-		mem:     make(map[ssa.Value]ssa.Value, len(st.mem)),
-		bind:    make(map[ssa.Value]ssa.Value, len(st.bind)),
-		facts:   make(map[ssa.Value]*fact, len(st.facts)),
-		loads:   make(map[string]ssa.Value, len(st.loads)),
-		lens:    make(map[string]ssa.Value, len(st.lens)),
-		events:  append([]Event(nil), st.events...),
-		blocks:  append([]*ssa.BasicBlock(nil), st.blocks...),
-		blockEv: append([]int(nil), st.blockEv...),
+		phi:       make(map[*ssa.Phi]ssa.Value, len(st.phi)),
+		mem:       make(map[ssa.Value]ssa.Value, len(st.mem)),
+		bind:      make(map[ssa.Value]ssa.Value, len(st.bind)),
+		facts:     make(map[ssa.Value]*fact, len(st.facts)),
+		loads:     make(map[string]ssa.Value, len(st.loads)),
+		lens:      make(map[string]ssa.Value, len(st.lens)),
+		events:    append([]Event(nil), st.events...),
+		blocks:    append([]*ssa.BasicBlock(nil), st.blocks...),
+		allBlocks: append([]*ssa.BasicBlock(nil), st.allBlocks...),
+		blockEv:   append([]int(nil), st.blockEv...),
 	}
 	for k, v := range st.phi {
 		n.phi[k] = v
@@ -309,7 +313,7 @@ func (en *enum) finish(st *state, end Kind) {
 		en.err = &ErrTooManyPaths{en.top, en.stats.Paths}
 		return
 	}
-	en.visit(&Path{Fn: en.top, Start: en.start, Events: st.events, Blocks: st.blocks, BlockEv: st.blockEv, End: end})
+	en.visit(&Path{Fn: en.top, Start: en.start, Events: st.events, Blocks: st.blocks, BlockEv: st.blockEv, AllBlocks: st.allBlocks, End: end})
 }
 
 // block enters b coming from pred (nil at a segment start).
@@ -332,6 +336,7 @@ func (en *enum) block(st *state, b *ssa.BasicBlock, pred *ssa.BasicBlock) {
 		return
 	}
 	fr.seen[b] = true
+	st.allBlocks = append(st.allBlocks, b)
 	if fr.parent == nil {
 		st.blocks = append(st.blocks, b)
 		st.blockEv = append(st.blockEv, len(st.events))
@@ -874,6 +879,9 @@ func (st *state) resolveAddr(v ssa.Value) ssa.Value {
 	return v
 }
 
+// KnownNamed, when set, lists the named types the rules may refer to by name.
+var KnownNamed map[string]bool
+
 // ConstKey renders a comparable constant (through MakeInterface) or "".
 func ConstKey(v ssa.Value) string {
 	if mi, ok := v.(*ssa.MakeInterface); ok {
@@ -890,6 +898,16 @@ func ConstKey(v ssa.Value) string {
 	switch t := c.Type().(type) {
 	case *types.Named:
 		tn = t.Obj().Name()
+		// a named type introduced after the rules were written says nothing
+		// the rules know about: its constants compare as what they are
+		if KnownNamed != nil && !KnownNamed[tn] {
+			if b, ok := t.Underlying().(*types.Basic); ok {
+				tn = b.Name()
+				if b.Info()&types.IsInteger != 0 {
+					tn = "int"
+				}
+			}
+		}
 	case *types.Basic:
 		tn = t.Name()
 		if t.Info()&types.IsInteger != 0 {
